@@ -711,7 +711,12 @@ func (p *vARPeer) fragSpec(f *vARFrag) string {
 
 // write: a new message on stream si, cut like packetize, consecutive TSNs; each fragment enters the network or is lost
 func (p *vARPeer) write(st *vARStream, size int, lossPct int) *vARMsg {
-	m := &vARMsg{id: p.nmsg, si: st.si, inc: st.inc, unordered: st.unordered, ppi: uint32(1000 + p.nmsg), pr: st.pr}
+	// the Stream object that will receive it: the registered one, else the next one the association creates for this id
+	inc := p.h.nInc[st.si]
+	if s, ok := p.h.a.streams[st.si]; ok {
+		inc = p.h.note(s).inc
+	}
+	m := &vARMsg{id: p.nmsg, si: st.si, inc: inc, unordered: st.unordered, ppi: uint32(1000 + p.nmsg), pr: st.pr}
 	p.nmsg++
 	switch {
 	case p.il && st.unordered:
